@@ -35,6 +35,12 @@ def plan(tier, seed):
         cfgs.append(dict(timeout=2, auto=auto, args=2, H=6 if quick else 8, base=2 ** 40))
         cfgs.append(dict(timeout=2, auto=auto, args=1, H=6 if quick else 8, mutate=1))
         cfgs.append(dict(timeout=3, auto=auto, args=5, H=6 if quick else 8, mutate=1))
+    # keyword-only arguments; a callback object that is falsy (defines __len__); times that are not binary fractions
+    for auto in (0, 1):
+        cfgs.append(dict(timeout=2, auto=auto, args=0, H=6 if quick else 8, kwargs=1))
+        cfgs.append(dict(timeout=2, auto=auto, args=2, H=6 if quick else 8, falsy_cb=1))
+        cfgs.append(dict(timeout=1, auto=auto, args=2, H=6 if quick else 8, base=0.7, unit=0.1))
+        cfgs.append(dict(timeout=3, auto=auto, args=0, H=6 if quick else 8, base=0.3, unit=0.1))
     # one auto-restart timer left alone for 1200 periods (a single long execution)
     cfgs.append(dict(endurance=1200))
     return {"cfgs": cfgs, "budget": 3 if quick else 4, "bound": "one timer running 1200 periods; H=%d instants, <=%d actions" % (8 if quick else 10, 3 if quick else 4)}
@@ -68,6 +74,7 @@ def execute(ch, cfg):
         return endurance(cfg)
     res = Result()
     base = cfg.get("base", 0)
+    unit = cfg.get("unit", 1)
     env = Environment(base)
     H = cfg["H"]
     fired = []          # (time, args tuple)
@@ -75,7 +82,7 @@ def execute(ch, cfg):
     holder = {}
     err = [None]
     # reference: set of (pending instant or None, stopped, period, lenient)
-    ref = {"states": {(base + cfg["timeout"], False, cfg["timeout"], False)}, "in_cb": False}
+    ref = {"states": {(base + cfg["timeout"] * unit, False, cfg["timeout"] * unit, False)}, "in_cb": False}
     tag = "Timer(%s,args=%s)" % ("auto-restart" if cfg["auto"] else "one-shot", ["None", "list", "scalar", "str", "zero", "list-of-falsy"][cfg["args"]])
     bad = []
 
@@ -86,7 +93,7 @@ def execute(ch, cfg):
             if action == "stop":
                 t.stop()
             else:
-                t.restart(action[1])
+                t.restart(action[1] * unit)
         except BaseException as e:  # noqa
             bad.append(("C19.noraise", "%s:%s-raised-%s-%s" % (tag, action if action == "stop" else "restart", type(e).__name__, slot), "t=%r: %r" % (now, e)))
             raise
@@ -95,7 +102,7 @@ def execute(ch, cfg):
             if action == "stop":
                 ns.add((None, True, period, lenient))
             else:
-                tau = action[1]
+                tau = action[1] * unit
                 if stopped:
                     ns.add((None, True, period, lenient))           # "after stop() it never fires again" - restart does not revive it
                 elif pending is None and slot != "callback":
@@ -133,24 +140,36 @@ def execute(ch, cfg):
             apply(ACTS[c], now, "callback")
 
     def actor(t):
-        yield env.timeout(t)
+        yield env.timeout(t * unit)
         c = ch.choose(len(ACTS), lambda c: "t=%d before the timer's event: %s" % (t, ACTS[c],))
         if c:
-            if any((not s[3]) and s[0] == base + t for s in ref["states"]):
+            if any((not s[3]) and s[0] == env.now for s in ref["states"]):
                 res.nontrivial = True
-            apply(ACTS[c], base + t, "before")
+            apply(ACTS[c], env.now, "before")
         yield env.timeout(0)
         c = ch.choose(len(ACTS), lambda c: "t=%d after the timer's event: %s" % (t, ACTS[c],))
         if c:
-            if fired and fired[-1][0] == base + t:
+            if fired and fired[-1][0] == env.now:
                 res.nontrivial = True
-            apply(ACTS[c], base + t, "after")
+            apply(ACTS[c], env.now, "after")
     for t in range(1, H + 1):
         env.process(actor(t))
     given = ARGS[cfg["args"]]
     if cfg.get("mutate"):
         given = list(given)
-    holder["t"] = Timer(env, cfg["timeout"], callback, auto_restart=bool(cfg["auto"]), args=given)
+    cb_obj = callback
+    if cfg.get("falsy_cb"):
+        class Hook:
+            """a callable object that is falsy (an empty signal / recorder defining __len__)"""
+
+            def __len__(self):
+                return 0
+
+            def __call__(self, *a, **kw):
+                return callback(*a, **kw)
+        cb_obj = Hook()
+    kwargs = {"k": 5, "name": ""} if cfg.get("kwargs") else None
+    holder["t"] = Timer(env, cfg["timeout"] * unit, cb_obj, auto_restart=bool(cfg["auto"]), args=given, **({"kwargs": kwargs} if kwargs else {}))
     if cfg.get("mutate"):
         # the caller goes on using its list for something else
         given.clear()
@@ -158,7 +177,7 @@ def execute(ch, cfg):
     missed = None
     try:
         nsteps = 0
-        while env.peek() < INF and env.peek() <= base + H + 3:
+        while env.peek() < INF and env.peek() <= base + (H + 3) * unit:
             nsteps += 1
             if nsteps > 400:
                 bad.append(("C19.once", "%s:timer-keeps-the-simulation-at-one-instant" % tag, "more than 400 kernel steps; t=%r actions %r fired %r" % (env.now, acts, fired[:5])))
@@ -182,7 +201,7 @@ def execute(ch, cfg):
         res.bad(missed[0], "%s:%s" % (tag, missed[1]), missed[2] + " actions %r fired %r" % (acts, fired))
         return res
     for (t, a, kw) in fired:
-        if a != WANT[cfg["args"]] or kw:
+        if a != WANT[cfg["args"]] or kw != ({"k": 5, "name": ""} if cfg.get("kwargs") else {}):
             res.bad("C19.args", "%s:callback-called-with-wrong-arguments" % tag, "got %r %r, expected %r" % (a, kw, WANT[cfg["args"]]))
             return res
     times = [f[0] for f in fired]
